@@ -7,7 +7,11 @@ Depending on the service_type_ident different types of body classes are instanti
 
 from __future__ import annotations
 
-from xknx.exceptions import CouldNotParseKNXIP, IncompleteKNXIPFrame
+from xknx.exceptions import (
+    ConversionError,
+    CouldNotParseKNXIP,
+    IncompleteKNXIPFrame,
+)
 
 from .body import KNXIPBody
 from .connect_request import ConnectRequest
@@ -146,7 +150,12 @@ class KNXIPFrame:
             raise CouldNotParseKNXIP(
                 f"KNXIPServiceType not implemented: {header.service_type_ident.name}"
             )
-        body.from_knx(raw_body)
+        try:
+            body.from_knx(raw_body)
+        except (IndexError, ValueError, ConversionError) as err:
+            raise CouldNotParseKNXIP(
+                f"Invalid {body.__class__.__name__} body: {err}"
+            ) from err
         return KNXIPFrame(header=header, body=body), data[header.total_length :]
 
     def to_knx(self) -> bytes:
